@@ -753,3 +753,39 @@ def r_sites(ctx):
                       "candidate product" % (shared[0] if shared else ''),
                       inputs='two detected errors whose correct fragments coincide (repetitive strands, small graphs)')
     run.floor('R-SITE', 'fragment stores in repair_dna', n, 1)
+
+
+def r_arity(ctx, entry):
+    """a dsw function whose result is unpacked into n names returns an n-tuple on every path"""
+    run = ctx.run
+    run.rule('R-ARITY', "for every call `a, b, ... = f(...)` of a dsw function in the closure, every return statement of f is a "
+                        "tuple display of that arity (an early return with another shape makes the unpacking raise)")
+    clo = ctx.closure(entry)
+    n = 0
+    for fq in sorted(clo):
+        f = ctx.p.func(fq)
+        for nd in f.stmts(ast.Assign):
+            st = nd.stmt
+            if len(st.targets) == 1 and isinstance(st.targets[0], ast.Tuple) and isinstance(st.value, ast.Call):
+                q, callee = ctx.resolve_call(f, st.value)
+                if callee is None:
+                    continue
+                want = len(st.targets[0].elts)
+                n += 1
+                bad = []
+                for r_ in callee.build().stmts(ast.Return):
+                    v = r_.stmt.value
+                    if isinstance(v, ast.Tuple):
+                        if len(v.elts) != want:
+                            bad.append((r_.lineno, '%d-tuple' % len(v.elts)))
+                    elif isinstance(v, ast.Call) or v is None and False:
+                        continue
+                    else:
+                        bad.append((r_.lineno, ast.unparse(v)[:40] if v is not None else 'None'))
+                run.check(not bad, 'R-ARITY', f, 'unpack:%s#%d' % (callee.name, n), nd.lineno,
+                          'every return of %s is a %d-tuple' % (callee.name, want),
+                          "%s unpacks the result of %s into %d names, but %s returns %s at line %d: the unpacking raises "
+                          "(ValueError / TypeError) on the inputs that take that return"
+                          % (f.name, callee.name, want, callee.name, bad[0][1] if bad else '', bad[0][0] if bad else 0),
+                          inputs='inputs that take the odd return path')
+    run.floor('R-ARITY', 'unpacked dsw calls in the closure of %s' % entry, n, 1)
